@@ -298,6 +298,9 @@ func funcOpNegate(v any) any {
 		if strings.HasPrefix(v.String(), "-") {
 			return v[1:]
 		}
+		if i, err := v.Int64(); err == nil && i == 0 {
+			return v // the integer zero has no sign
+		}
 		return "-" + v
 	default:
 		return &unaryTypeError{"negate", v}
